@@ -589,7 +589,7 @@ def render_scenario(sc, fn="observe"):
 
 # ----------------------------------------------------------------------------- running one scenario
 
-def verify(ref, w, impls, legit, missed, d, o, actual, new_recs):
+def verify(ref, w, impls, legit, missed, d, o, actual, new_recs, top=True):
     """The property, checked top-down on the value an evaluation returned.  A dataset whose effect
     did not run during this call was served from its cache: its value must be one an earlier
     evaluation computed for that cache under the SAME dispatch outcome (and, when the same
@@ -605,6 +605,10 @@ def verify(ref, w, impls, legit, missed, d, o, actual, new_recs):
     if w.cache_label[d] not in missed:
         recs = [r for r in legit.get(x["cache"], []) if r["value"] == actual]
         same = [r for r in recs if r["outcome"] == out]
+        if not recs and not top:
+            return dict(zone=None, dataset=d,
+                        desc="computed value is not callback(implementation registered for the current dispatch value / default): "
+                             "the dataset the reference picks was neither computed nor holds this value in its cache")
         if not recs:
             return dict(zone=None, dataset=d, desc="a value was served from the cache that no earlier evaluation computed for this dataset")
         if not same:
@@ -640,7 +644,7 @@ def verify(ref, w, impls, legit, missed, d, o, actual, new_recs):
             return dict(zone=None, dataset=d, expected=World.show_val(exp[1]) if exp[0] == "v" else "failure",
                         desc="computed value is not callback(implementation registered for the current dispatch value / default)")
     else:
-        bad = verify(ref, w, impls, legit, missed, impl[1], o2, inner, new_recs)
+        bad = verify(ref, w, impls, legit, missed, impl[1], o2, inner, new_recs, top=False)
         if bad is not None:
             return bad
     new_recs.append(dict(cache=x["cache"], value=actual, outcome=out, disp=copy.deepcopy(x["disp"]),
@@ -928,6 +932,8 @@ class Gen:
         e = self.gen_disp(rng.choice([20, 20, 21])) if with_dispatch else ["missing"]
         abstract = (rng.random() < 0.2) if abstract is None else abstract
         dflt = None if abstract else ["f", self.new_impl()]
+        if dflt and self.ref.ds and rng.random() < 0.1:
+            dflt = ["d", rng.choice(list(self.ref.ds))]      # dataset(<an existing Dataset>, dispatch=...)
         cb = None
         if rng.random() < 0.5:
             cb = self.next_cb
@@ -1294,7 +1300,7 @@ KNOWN_WHAT = {
 def run(ctx):
     L = _labrea()
     rng = ctx.rng
-    n = dict(overload=150, interface=110, zone19=40, zone22=40) if ctx.quick else dict(overload=2200, interface=1600, zone19=400, zone22=400)
+    n = dict(overload=150, interface=110, zone19=40, zone22=40) if ctx.quick else dict(overload=6000, interface=4500, zone19=900, zone22=900)
     scs = fixed_scenarios()
     for profile, cnt in n.items():
         for _ in range(cnt):
